@@ -218,7 +218,21 @@ def gen_history(rng, cfg, pool, text, nops, weights=None, allow_uncrawled_pages=
             ops.append({"op": "add_page", "lru": l, "crawled": c, "as_str": astr([l])})
             m.add_page(l, c)
         elif k == "add_pages":
-            ls = [pick() for _ in range(rng.randint(1, 4))]
+            r = rng.random()
+            if r < 0.12:
+                # G-order: a whole slice of the pool in ascending / descending / middle-out order
+                # (degenerate sibling chains and their mirror images)
+                sl = sorted(set(pool))
+                sl = sl[: rng.randint(3, len(sl))]
+                mode = rng.choice(["asc", "desc", "mid"])
+                if mode == "desc":
+                    sl.reverse()
+                elif mode == "mid":
+                    mid = len(sl) // 2
+                    sl = [x for pair in zip(sl[mid:], reversed(sl[:mid])) for x in pair] + ([sl[-1]] if len(sl) % 2 else [])
+                ls = sl
+            else:
+                ls = [pick() for _ in range(rng.randint(1, 4))]
             c = rng.random() < 0.6 if allow_uncrawled_pages else True
             ops.append({"op": "add_pages", "lrus": ls, "crawled": c, "as_str": astr(ls)})
             for l in ls:
